@@ -222,6 +222,9 @@ def run(ctx):
     r13_2_validators(ctx)
     r13_1_bytes_forms(ctx)
     r13_4_address(ctx)
+    from rules import c12 as _c12
+
+    _c12.r12_1_sites(ctx)  # with assembleConstants the literal is read back by PyTeal itself: the bytes pushed are the bytes the literal denotes (shared with C12)
     return (
         "Abstract evaluation of escapeStr, the literal validators and the Bytes/Int/MethodSignature constructors+lowerings on systematically generated literals, each result read back "
         "by an independent implementation of the TEAL literal grammar (one token, one line, denoted bytes) or compared with an RFC 4648 reference. Assembly of the bytes by a real "
